@@ -142,6 +142,12 @@ def run(ctx):
             for _ in range(4 if ctx.quick else 20):
                 for roles in (["close", "c1"], ["close", "c2"], ["close", "c1", "c2"]):
                     racing.append(c10.script(rng, kinds, roles, 400))
+    # Close must wait for the estimator's pipeline goroutines: pacer that is slow in SetTargetBitrate, census right after Close
+    for _ in range(6 if ctx.quick else 40):
+        for roles in (["close", "c1", "w1a"], ["close", "c2", "w1a"], ["close", "c1", "c2", "w1a"]):
+            sc = c10.script(rng, ["ccslow"], roles, 400)
+            sc["strict"], sc["settle"] = True, 2
+            racing.append(sc)
     for i in range(0, len(racing), 60):
         vlib.run_batch(ctx, tag="G-close-racing-%d" % (i // 60), scripts=racing[i:i + 60], pkg_rel="", pkgname="interceptor_test",
                        files=["zz_verif_univ_test.go", "common:zz_verif_pkt_test.go.tpl"], test="TestVerifUnivExec",
